@@ -4,25 +4,61 @@ import (
 	"fmt"
 	"go/token"
 	"go/types"
+	"strings"
 
 	"golang.org/x/tools/go/ssa"
 )
 
+// Package-level state of packages OUTSIDE the repository (standard library, third party) is
+// initialised once per harness and shared by all paths explored by this interpreter copy: re-running
+// e.g. net/http's and unicode's initialisers for every path dominated the cost of handler harnesses.
+// Assumption (stated in DESIGN.md): harness paths do not mutate std package-level state in a way later
+// paths can observe. The repository's own packages (and the harness runtime) are re-initialised per path.
+const repoModulePrefix = "github.com/nuetzliches/hookaido"
+
+var (
+	sharedGlobals map[*ssa.Global]*value
+	sharedInited  map[*ssa.Package]bool
+)
+
+// Only the harness runtime's package-level state is rebuilt for every path; every other package's is
+// shared (their initialisers compile regular expressions and build tables: 15 ms per path in
+// internal/app). Harness files must not keep mutable package-level state.
+var harnessPkg *ssa.Package
+
+func isSharedPkg(pkg *ssa.Package) bool {
+	if pkg == nil || pkg.Pkg == nil {
+		return false
+	}
+	return !strings.HasPrefix(pkg.Pkg.Path(), repoModulePrefix+"/internal/verifrt")
+}
+
 func (i *interpreter) globalAddr(g *ssa.Global) *value {
-	if r, ok := i.globals[g]; ok {
+	m := i.globals
+	if isSharedPkg(g.Pkg) {
+		m = sharedGlobals
+	}
+	if r, ok := m[g]; ok {
 		return r
 	}
 	cell := zero(mustDeref(g.Type()))
-	i.globals[g] = &cell
+	m[g] = &cell
 	i.ensureInit(g.Pkg)
 	return &cell
 }
 
 func (i *interpreter) ensureInit(pkg *ssa.Package) {
-	if pkg == nil || i.inited[pkg] {
+	if pkg == nil {
 		return
 	}
-	i.inited[pkg] = true
+	done := i.inited
+	if isSharedPkg(pkg) {
+		done = sharedInited
+	}
+	if done[pkg] {
+		return
+	}
+	done[pkg] = true
 	if f := pkg.Func("init"); f != nil {
 		func() {
 			defer func() {
@@ -60,6 +96,9 @@ func newInterp(prog *ssa.Program, sizes types.Sizes) *interpreter {
 // RunHarness explores every path of the niladic function fn.
 func RunHarness(prog *ssa.Program, sizes types.Sizes, fn *ssa.Function, x *Explorer) {
 	X = x
+	harnessPkg = fn.Pkg
+	sharedGlobals = make(map[*ssa.Global]*value)
+	sharedInited = make(map[*ssa.Package]bool)
 	x.Run(fn.String(), func() {
 		i := newInterp(prog, sizes)
 		call(i, nil, token.NoPos, fn, nil)
